@@ -311,6 +311,7 @@ func judge(e *env, c *Case, o *obs) (class, what, label string) {
 	}
 
 	// ---------- error clause ----------
+	var wantAny []error // multi-alternative security: the error must be one of these, when there are any
 	errorClause := func(label string, want error, challenge string) (string, string, string) {
 		if o.panicked != "" {
 			return fail("panic", "the error responder to be invoked")
@@ -327,6 +328,16 @@ func judge(e *env, c *Case, o *obs) (class, what, label string) {
 		}
 		if want != nil && !same(want, ec.err) {
 			return fail("error-responder-wrong-error", fmt.Sprintf("the error responder to be invoked with the returned error (%v)", want))
+		}
+		if len(wantAny) > 0 {
+			found := false
+			for _, w := range wantAny {
+				found = found || same(w, ec.err)
+			}
+			if !found {
+				return fail("error-responder-wrong-error/not-an-authenticator-error", fmt.Sprintf("the error responder to be invoked with an error a security alternative returned (one of %v), not with one no alternative produced", wantAny))
+			}
+			label += "/authenticator-error"
 		}
 		m := mediaPart(ec.ct)
 		if nothing {
@@ -362,7 +373,29 @@ func judge(e *env, c *Case, o *obs) (class, what, label string) {
 		if o.stageErr != nil {
 			want = o.stageErr
 		}
-		if c.Auth != nil {
+		if c.Auth != nil && len(c.Auth.Alts) > 0 {
+			// several alternatives, none admitted: "an earlier stage returns an error, the
+			// error responder is invoked with it" - with the error of one of the alternatives
+			// that failed (which one is C02's business), never with a fabricated one when
+			// some alternative did return an error
+			// (when some alternative carries acceptable credentials the request is admitted and
+			// whatever refused it afterwards is another stage: only the general clause applies)
+			admitted := false
+			for _, st := range c.Auth.States {
+				admitted = admitted || st == "ok"
+			}
+			label = "multi-alt/" + label
+			if !admitted {
+				wantAny = o.authErrs
+				for i, a := range c.Auth.Alts {
+					if a == "basic" && c.Auth.States[i] == "fail" {
+						challenge = "rejected-credentials"
+					}
+				}
+			} else {
+				label = "multi-alt-admitted/" + label
+			}
+		} else if c.Auth != nil {
 			switch c.Auth.Creds {
 			case "wrong":
 				want = o.authErr
